@@ -196,7 +196,20 @@ HOSTILE = [
 ]
 
 
+def gen_scalar_container_case(r):
+    """--scalar with a result that is a container only Python-literal targets can hold (a tuple, possibly empty or nested)"""
+    tup = r.choice([(1, 2), (), ('x',), ((1,), 2), (None, True)])
+    t = {'a': {'b': tup}, 'l': [tup], 'n': 5}
+    spec = r.choice(['a.b', 'a.b', 'l.0', ('a', 'b'), 'n', 'a'])
+    c = {'kind': 'run', 'target': t, 'indent': r.choice([None, 0, 4]), 'scalar': True, 'tfmt': 'python', 'sfmt': 'python', 'via': 'inproc',
+         'spec_text': spec if isinstance(spec, str) else repr(spec), 'target_text': repr(t), 'spec_src': 'arg',
+         'target_src': r.choice(['arg', 'file', 'stdin'])}
+    return c
+
+
 def gen_case(r):
+    if r.random() < 0.04:
+        return gen_scalar_container_case(r)
     t = gen_target(r, 3)
     if not isinstance(t, (dict, list)) and r.random() < 0.7:
         t = {'a': t}                      # otherwise a top-level scalar (0, '', null, false, ...): only Path() / () specs make sense
